@@ -556,6 +556,7 @@ func (db *DB) close() (err error) {
 	// Stop writes next.
 	db.closers.writes.SignalAndWait()
 
+	verifPoint("close.beforeCloseWriteCh")
 	// Don't accept any more write.
 	close(db.writeCh)
 
@@ -832,6 +833,7 @@ func (db *DB) writeToLSM(b *request) error {
 		if err != nil {
 			return y.Wrapf(err, "while writing to memTable")
 		}
+		verifPoint("persist.wal.put", uint64(i))
 	}
 	if db.opt.SyncWrites {
 		return db.mt.SyncWAL()
@@ -885,11 +887,13 @@ func (db *DB) writeRequests(reqs []*request) error {
 			done(err)
 			return y.Wrap(err, "writeRequests")
 		}
+		verifPoint("persist.wal.request-done", uint64(len(b.Entries)))
 	}
 
 	db.opt.Debugf("Sending updates to subscribers")
 	db.pub.sendUpdates(reqs)
 
+	verifPoint("persist.batch.ack", uint64(len(reqs)))
 	done(nil)
 	db.opt.Debugf("%d entries written", count)
 	return nil
@@ -915,6 +919,7 @@ func (db *DB) sendToWriteCh(entries []*Entry) (*request, error) {
 	req.reset()
 	req.Entries = entries
 	req.Wg.Add(1)
+	verifPoint("sendToWriteCh.beforeSend")
 	req.IncrRef()     // for db write
 	db.writeCh <- req // Handled in doWrites.
 	y.NumPutsAdd(db.opt.MetricsEnabled, int64(len(entries)))
@@ -1042,6 +1047,7 @@ func (db *DB) ensureRoomForWrite() error {
 		if err != nil {
 			return y.Wrapf(err, "cannot create new mem table")
 		}
+		verifPoint("persist.mem.rotated", uint64(db.nextMemFid-1))
 		// New memtable is empty. We certainly have room.
 		return nil
 	default:
@@ -1091,6 +1097,7 @@ func (db *DB) handleMemTableFlush(mt *memTable, dropPrefixes [][]byte) error {
 
 	fileID := db.lc.reserveFileID()
 	var tbl *table.Table
+	verifPoint("persist.flush.begin", fileID)
 	var err error
 	if db.opt.InMemory {
 		data := builder.Finish()
@@ -1101,9 +1108,11 @@ func (db *DB) handleMemTableFlush(mt *memTable, dropPrefixes [][]byte) error {
 	if err != nil {
 		return y.Wrap(err, "error while creating table")
 	}
+	verifPoint("persist.flush.table", fileID)
 	// We own a ref on tbl.
 	err = db.lc.addLevel0Table(tbl) // This will incrRef
 	_ = tbl.DecrRef()               // Releases our ref.
+	verifPoint("persist.flush.manifest", fileID)
 	return err
 }
 
@@ -1134,7 +1143,9 @@ func (db *DB) flushMemtable(lc *z.Closer) {
 			// TODO: This logic is dirty AF. Any change and this could easily break.
 			y.AssertTrue(mt == db.imm[0])
 			db.imm = db.imm[1:]
+			verifPoint("persist.flush.before-wal-release")
 			mt.DecrRef() // Return memory.
+			verifPoint("persist.flush.wal-released")
 			// unlock
 			db.lock.Unlock()
 			break
@@ -1741,15 +1752,18 @@ func (db *DB) dropAll() (func(), error) {
 		mt.DecrRef()
 	}
 	db.imm = db.imm[:0]
+	verifPoint("dropall.mt-wal-removed")
 	db.mt, err = db.newMemTable() // Set it up for future writes.
 	if err != nil {
 		return resume, y.Wrapf(err, "cannot open new memtable")
 	}
+	verifPoint("dropall.new-memtable")
 
 	num, err := db.lc.dropTree()
 	if err != nil {
 		return resume, err
 	}
+	verifPoint("dropall.tree-dropped")
 	db.opt.Infof("Deleted %d SSTables. Now deleting value logs...\n", num)
 
 	num, err = db.vlog.dropAll()
@@ -1757,6 +1771,7 @@ func (db *DB) dropAll() (func(), error) {
 		return resume, err
 	}
 	db.lc.nextFileID.Store(1)
+	verifPoint("dropall.vlog-dropped")
 	db.opt.Infof("Deleted %d value log files. DropAll done.\n", num)
 	db.blockCache.Clear()
 	db.indexCache.Clear()
